@@ -10,7 +10,7 @@ Norm(r) == LET s == IF r[2] < 0 THEN -1 ELSE 1
                g == Gcd(Abs(r[1]), Abs(r[2]))
            IN IF g = 0 THEN <<0, 1>> ELSE <<(s * r[1]) \div g, (s * r[2]) \div g>>
 R(n) == <<n, 1>>
-RAdd(a, b) == Norm(<<a[1] * b[2] + b[1] * a[2], a[2] * b[2]>>)
+RAdd(a, b) == LET g == Gcd(a[2], b[2]) IN Norm(<<a[1] * (b[2] \div g) + b[1] * (a[2] \div g), (a[2] \div g) * b[2]>>)   \* over the lcm: smaller intermediates
 RNeg(a)    == <<-a[1], a[2]>>
 RSub(a, b) == RAdd(a, RNeg(b))
 RMul(a, b) == Norm(<<a[1] * b[1], a[2] * b[2]>>)
